@@ -1,13 +1,101 @@
 /-
-Oracle ops for the `wire` family.  Owned by the slice that models it; see AGENT_GUIDE.md.
+Oracle ops for the `wire` family (C01; models: Model/WireDecode.lean, Model/Validate.lean).
+
+Arguments: byte strings are lowercase hex, the empty string is `-`; numbers are decimal.
+Error classes:  ok eof char esc utf8 dup depth ioeof fuel bug
+  (eof = io.ErrUnexpectedEOF, ioeof = io.EOF, char = invalid character (also errMismatchDelim as
+   re-reported by wrapSyntacticError), esc = invalid escape sequence / surrogate pair,
+   utf8 = jsonwire.ErrInvalidUTF8, dup = ErrDuplicateName, depth = errMaxDepth).
+Flags: decimal ValueFlags word (1 = stringNonVerbatim, 2 = stringNonCanonical).
+
+  wire ws h                    → "n"                          ConsumeWhitespace
+  wire lit h                   → "c0 c1 c2 n0 e0 n1 e1 n2 e2" ConsumeNull/False/True, then ConsumeLiteral with null/false/true
+  wire sstr h                  → "n"                          ConsumeSimpleString
+  wire str v h                 → "n flags err"                ConsumeString(validateUTF8 = v)
+  wire strR v off h            → "n flags err"                ConsumeStringResumable(resumeOffset = off)
+  wire snum h                  → "n"                          ConsumeSimpleNumber
+  wire num h                   → "n err"                      ConsumeNumber
+  wire numR off state h        → "n state err"                ConsumeNumberResumable
+  wire unq h                   → "hex err"                    AppendUnquote(nil, h)
+  wire hex4 h                  → "v ok"                       parseHexUint16 (v = 0 when !ok)
+  wire esc16 lower h           → "0|1"                        hasEscapedUTF16Prefix
+  wire trimws h | trimstr h    → "hex"                        TrimSuffixWhitespace / TrimSuffixString
+  wire trimb c h               → "hex"                        TrimSuffixByte (c decimal)
+  wire valid u d h             → "ok" | "E class off"         Value.IsValid framing: ws value ws, u = AllowInvalidUTF8, d = AllowDuplicateNames
+  wire stream u d h            → "count class off"            ReadValue loop: values read, then ioeof at a boundary or the first error
+  wire value u d depth h       → "n class"                    decoderState.consumeValue at the given depth on h (h non-empty)
 -/
 import JsonV.Oracle.Util
+import JsonV.Model.Validate
 
 namespace JsonV.Oracle.Wire
-open JsonV JsonV.Oracle
+open JsonV JsonV.Oracle JsonV.Model.Wire JsonV.Model.Validate
+
+def errStr : Err → String
+  | .ok => "ok" | .eof => "eof" | .invalidChar => "char" | .invalidEscape => "esc" | .invalidUTF8 => "utf8"
+  | .dupName => "dup" | .maxDepth => "depth" | .mismatchDelim => "char" | .ioEOF => "ioeof"
+  | .fuel => "fuel" | .bug => "bug"
+
+def b01 (s : String) : Option Bool := if s == "1" then some true else if s == "0" then some false else none
 
 def handle (op : String) (args : List String) : String :=
   match op, args with
-  | _, _ => "ERR unimplemented"
+  | "ws", [h] => match bytesOfHex h with
+    | some b => toString (consumeWhitespace b) | none => badArgs
+  | "lit", [h] => match bytesOfHex h with
+    | some b =>
+      let l (lit : Bytes) := let (n, e) := consumeLiteral b lit; s!"{n} {errStr e}"
+      s!"{consumeNull b} {consumeFalse b} {consumeTrue b} {l litNull} {l litFalse} {l litTrue}"
+    | none => badArgs
+  | "sstr", [h] => match bytesOfHex h with
+    | some b => toString (consumeSimpleString b) | none => badArgs
+  | "str", [v, h] => match b01 v, bytesOfHex h with
+    | some v, some b => let (n, f, e) := consumeString b v; s!"{n} {f.toNat} {errStr e}"
+    | _, _ => badArgs
+  | "strR", [v, off, h] => match b01 v, off.toNat?, bytesOfHex h with
+    | some v, some off, some b => let (n, f, e) := consumeStringResumable b off v; s!"{n} {f.toNat} {errStr e}"
+    | _, _, _ => badArgs
+  | "snum", [h] => match bytesOfHex h with
+    | some b => toString (consumeSimpleNumber b) | none => badArgs
+  | "num", [h] => match bytesOfHex h with
+    | some b => let (n, e) := consumeNumber b; s!"{n} {errStr e}"
+    | none => badArgs
+  | "numR", [off, st, h] => match off.toNat?, st.toNat?, bytesOfHex h with
+    | some off, some st, some b => let (n, st', e) := consumeNumberResumable b off st; s!"{n} {st'} {errStr e}"
+    | _, _, _ => badArgs
+  | "unq", [h] => match bytesOfHex h with
+    | some b => let (o, e) := unquote b; s!"{hexOfBytes o} {errStr e}"
+    | none => badArgs
+  | "hex4", [h] => match bytesOfHex h with
+    | some b => match parseHexUint16 b with
+      | some v => s!"{v} 1"
+      | none => "0 0"
+    | none => badArgs
+  | "esc16", [l, h] => match b01 l, bytesOfHex h with
+    | some l, some b => boolStr (hasEscapedUTF16Prefix b l)
+    | _, _ => badArgs
+  | "trimws", [h] => match bytesOfHex h with
+    | some b => hexOfBytes (trimSuffixWhitespace b) | none => badArgs
+  | "trimstr", [h] => match bytesOfHex h with
+    | some b => hexOfBytes (trimSuffixString b) | none => badArgs
+  | "trimb", [c, h] => match c.toNat?, bytesOfHex h with
+    | some c, some b => hexOfBytes (trimSuffixByte b (UInt8.ofNat c))
+    | _, _ => badArgs
+  | "valid", [u, d, h] => match b01 u, b01 d, bytesOfHex h with
+    | some u, some d, some b =>
+      let (n, e) := validText ⟨u, d⟩ b
+      if e == .ok then "ok" else s!"E {errStr e} {n}"
+    | _, _, _ => badArgs
+  | "stream", [u, d, h] => match b01 u, b01 d, bytesOfHex h with
+    | some u, some d, some b =>
+      let (cnt, off, e) := stream ⟨u, d⟩ b
+      s!"{cnt} {errStr e} {off}"
+    | _, _, _ => badArgs
+  | "value", [u, d, depth, h] => match b01 u, b01 d, depth.toNat?, bytesOfHex h with
+    | some u, some d, some depth, some b =>
+      let (n, e) := consumeValue ⟨u, d⟩ (fuelFor b) depth b
+      s!"{n} {errStr e}"
+    | _, _, _, _ => badArgs
+  | _, _ => badArgs
 
 end JsonV.Oracle.Wire
